@@ -25,7 +25,7 @@ enum UOp {
     /// one send: ask for the balance, constrain a buffer of `mss` by it and by `quota`,
     /// write `want` bytes (clipped to the constrained length), commit, report `extra`
     /// bytes on top in `on_sent` (datagram padding added after the packets were budgeted)
-    Send { mss: u16, quota: u32, want: u16, extra: u16 },
+    Send { mss: u16, quota: u32, want: u16, extra: u16, more: Vec<(u16, bool)> },
     Grant,
     Abort,
 }
@@ -38,8 +38,10 @@ struct UCase {
 fn ucase() -> impl Strategy<Value = UCase> {
     let op = prop_oneof![
         4 => prop_oneof![Just(1200u32), 1u32..1500, 0u32..70000].prop_map(UOp::Rcvd),
-        8 => (prop_oneof![Just(1200u16), Just(1500), 25u16..1500], prop_oneof![Just(u32::MAX), 0u32..5000], 0u16..1600, prop_oneof![4 => Just(0u16), 1 => 0u16..1300])
-            .prop_map(|(mss, quota, want, extra)| UOp::Send { mss, quota, want, extra }),
+        8 => (prop_oneof![Just(1200u16), Just(1500), 25u16..1500], prop_oneof![Just(u32::MAX), 0u32..5000], 0u16..1600, prop_oneof![4 => Just(0u16), 1 => 0u16..1300],
+              // further packets coalesced into the same datagram: (bytes wanted, counts as in flight)
+              proptest::collection::vec((0u16..800, any::<bool>()), 0..3))
+            .prop_map(|(mss, quota, want, extra, more)| UOp::Send { mss, quota, want, extra, more }),
         1 => Just(UOp::Grant),
         1 => Just(UOp::Abort),
     ];
@@ -72,7 +74,7 @@ fn unit_oracle(case: &UCase, ctx: &mut CaseCtx) -> Outcome {
                     state = 2;
                 }
             }
-            UOp::Send { mss, quota, want, extra } => {
+            UOp::Send { mss, quota, want, extra, more } => {
                 let budget = (3 * rcvd).saturating_sub(sent);
                 match aa.balance() {
                     Err(_) => {
@@ -99,11 +101,28 @@ fn unit_oracle(case: &UCase, ctx: &mut CaseCtx) -> Outcome {
                         } else {
                             ensure!(state == 1 && credit == usize::MAX, "unit-granted", "step {step}: state {state} credit {credit}");
                         }
-                        let constraints = Constraints::new(credit, *quota as usize);
+                        let mut constraints = Constraints::new(credit, *quota as usize);
                         let mut buf = vec![0u8; *mss as usize];
                         let room = constraints.constrain(&mut buf).len();
                         ensure!(room <= credit && room <= *quota as usize && room <= *mss as usize, "unit-constrain", "step {step}: constrained to {room}");
-                        let n = (*want as usize).min(room);
+                        let mut n = (*want as usize).min(room);
+                        // the first packet of the datagram is ack-eliciting (in flight); the packets
+                        // coalesced behind it are budgeted against what `commit` left over, exactly as
+                        // PacketsAssembler::assemble does for every packet of a datagram
+                        constraints.commit(n, true);
+                        for (w, in_flight) in more {
+                            let left = constraints.constrain(&mut buf[n..]).len();
+                            let k = (*w as usize).min(left);
+                            constraints.commit(k, *in_flight);
+                            n += k;
+                        }
+                        if state == 0 {
+                            ensure!(
+                                n <= credit,
+                                "unit-datagram-exceeds-credit",
+                                "step {step}: the packets of one datagram add up to {n} bytes although the credit was {credit}"
+                            );
+                        }
                         let total = n + if n > 0 { *extra as usize } else { 0 };
                         if total > 0 {
                             aa.on_sent(total);
